@@ -1,3 +1,4 @@
+//@@FILE crates/grafeo-core/src/execution/operators/filter.rs
 // Appended to crates/grafeo-core/src/execution/operators/filter.rs in the scratch copy (cfg(kani) only).
 // Loop-free harnesses over the REAL eval_binary_op / eval_unary_op with the operator and the operand variants fixed and
 // every payload symbolic (all i64, all f64 bit patterns).  The methods never read `self` (rule M1): the receiver is an
@@ -126,4 +127,23 @@ mod verif_filter {
     macro_rules! cmp { ($n:ident, $p:expr, $a:expr, $b:expr) => {
         #[kani::proof] #[kani::stub(regex::Regex::new, regex_new_stub)] #[kani::stub(regex::Regex::is_match, regex_is_match_stub)] fn $n() { cmp($p, $a, $b); } }; }
     //@GENERATED-CMP@
+}
+//@@FILE crates/grafeo-core/src/execution/operators/push/project.rs
+// The push-based pipeline has its own arithmetic evaluator: the same "returns, never panics" obligation (C12), all i64 / f64 pairs.
+#[cfg(kani)]
+mod verif_project {
+    use super::*;
+    fn val(kind: u8) -> Value { match kind { 2 => Value::Int64(kani::any()), _ => Value::Float64(kani::any()) } }
+    fn arith(op: ArithOp, k1: u8, k2: u8) {
+        let e = BinaryExpr::new(Box::new(ConstantExpr::new(val(k1))), Box::new(ConstantExpr::new(val(k2))), op);
+        let chunk = DataChunk::empty();
+        let out = e.evaluate(&chunk, 0);
+        if k1 == 2 && k2 == 2 { assert!(matches!(out, Value::Int64(_) | Value::Null)); }
+        kani::cover!(true);
+        std::mem::forget(out); std::mem::forget(e); std::mem::forget(chunk);
+    }
+    macro_rules! parith { ($n:ident, $op:ident, $a:expr, $b:expr) => { #[kani::proof] fn $n() { arith(ArithOp::$op, $a, $b); } }; }
+    parith!(project_add_int_int, Add, 2, 2); parith!(project_sub_int_int, Sub, 2, 2); parith!(project_mul_int_int, Mul, 2, 2);
+    parith!(project_div_int_int, Div, 2, 2); parith!(project_mod_int_int, Mod, 2, 2);
+    parith!(project_div_float_float, Div, 3, 3); parith!(project_mod_float_float, Mod, 3, 3); parith!(project_add_int_float, Add, 2, 3);
 }
